@@ -59,7 +59,7 @@ PROPS = {
         "assumptions": ["time.Time.MarshalBinary/UnmarshalBinary as in Go 1.23 (wire form 15/16 bytes)", "bytes.Buffer.Write never fails"],
     },
     "C13": {
-        "suites": ["wal", "crash"],
+        "suites": ["wal", "crash", "conc"],
         "partial": "dir_exact and ids_never_reused are theorems for every sequential run; recovered_dir_exact_any_crash (after every recovery the directory holds exactly the live segments' files, ids below NextSegmentID) is a theorem of Model/Crash.lean; the real directory is compared after every call (wal suite, real FS) and after every Open of the crash suite; deletion deferred by concurrent readers is exercised by the conc suite",
         "assumptions": ["VFS Delete = unlink + directory fsync (checked on the real layer by C07)"],
     },
